@@ -51,6 +51,29 @@ pub struct C14 {
 
 pub type Out2 = [Option<Pn>; 2];
 
+/// The simulated clock at the start of a call into the library and after it. They differ when the
+/// run lets time pass inside calls (every clock read advances the clock); an arrival stamp or a
+/// timeout decision taken inside the call lies somewhere in between, so the observers only claim
+/// what holds for every reading in the span.
+#[derive(Copy, Clone, Debug, PartialEq, Eq)]
+pub struct Span {
+    pub a: Duration,
+    pub b: Duration,
+}
+impl Span {
+    pub fn at(t: Duration) -> Span {
+        Span { a: t, b: t }
+    }
+}
+/// Every clock reading of the poll is at/after the deadline of a byte stamped during `fed`.
+pub fn surely_late(fed: Span, poll: Span, timeout: Duration) -> bool {
+    poll.a.saturating_sub(fed.b) >= timeout
+}
+/// Some clock reading of the poll may be at/after the deadline.
+pub fn maybe_late(fed: Span, poll: Span, timeout: Duration) -> bool {
+    poll.b.saturating_sub(fed.a) >= timeout
+}
+
 /// Harness-side decoding of a Control Change: (channel, controller number, value).
 #[inline]
 pub fn cc(b: [u8; 3]) -> Option<(u8, u8, u8)> {
@@ -152,7 +175,7 @@ impl PnModel {
 #[derive(Copy, Clone, Debug)]
 pub struct I6 {
     pub val: u8,
-    pub at: Duration,
+    pub at: Span,
     /// number complete at receipt
     pub complete: bool,
     pub rep7: bool,
@@ -162,7 +185,7 @@ pub struct I6 {
 #[derive(Copy, Clone, Debug)]
 pub struct I38 {
     pub val: u8,
-    pub at: Duration,
+    pub at: Span,
     /// number complete at receipt (otherwise no timeout is running for it)
     pub complete: bool,
     pub used14: bool,
@@ -174,8 +197,8 @@ pub struct I38 {
 pub enum RS {
     Idle,
     S0 { fresh: bool },
-    SM { m: u8, t0: Duration },
-    SL { l: u8, t0: Duration },
+    SM { m: u8, t0: Span },
+    SL { l: u8, t0: Span },
     S14 { m: u8 },
 }
 impl RS {
@@ -240,6 +263,8 @@ impl ChanHist {
 /// What the poll observer reports back to the executor for probes.
 #[derive(Copy, Clone, Debug, Default)]
 pub struct PollInfo {
+    /// the deadline of the pending byte fell inside the call (time passed during it)
+    pub straddle: bool,
     /// 0 = pending MSB, 1 = unpaired LSB, 2 = nothing
     pub what: usize,
     /// 0 = early, 1 = exactly at deadline, 2 = late (only meaningful for what < 2)
@@ -267,7 +292,7 @@ impl PollObs {
 
     /// Observes one `feed` of a *contributing* Control Change (cn in {6,38,96..101}) and its
     /// result. Returns the recogniser class before the event (for probes).
-    pub fn on_feed(&mut self, c: u8, cn: u8, cv: u8, out: Out2, now: Duration, s: &mut Sink) -> usize {
+    pub fn on_feed(&mut self, c: u8, cn: u8, cv: u8, out: Out2, now: Span, s: &mut Sink) -> usize {
         let h = &mut self.ch[c as usize];
         let class_before = h.st.class();
         // ---- C12: recogniser expectation
@@ -432,32 +457,37 @@ impl PollObs {
         class_before
     }
 
-    /// Observes one `poll(c)`; `unchanged` = scanner compared equal to its pre-call copy.
-    pub fn on_poll(&mut self, c: u8, out: Option<Pn>, now: Duration, unchanged: bool, s: &mut Sink) -> PollInfo {
+    /// Observes one `poll(c)`; `unchanged` = scanner compared equal to its pre-call copy. `now` is
+    /// the clock span of the call.
+    pub fn on_poll(&mut self, c: u8, out: Option<Pn>, now: Span, unchanged: bool, s: &mut Sink) -> PollInfo {
         let timeout = self.timeout;
         let h = &mut self.ch[c as usize];
-        let mut info = PollInfo { what: 2, when: 0, rec_class: h.st.class(), rec_late: false };
+        let mut info = PollInfo { what: 2, when: 0, rec_class: h.st.class(), rec_late: false, straddle: false };
         // ---- C12
         let exp: Option<Option<Pn>> = match h.st {
             RS::Idle => None,
             RS::SM { m, t0 } => {
-                if now.saturating_sub(t0) >= timeout {
+                let e = Self::rmsg(h, c, m as u16, false, 0);
+                if surely_late(t0, now, timeout) {
                     info.rec_late = true;
-                    let e = Self::rmsg(h, c, m as u16, false, 0);
                     h.st = RS::S0 { fresh: false };
                     Some(Some(e))
+                } else if maybe_late(t0, now, timeout) {
+                    // the deadline passed during the call: either answer is right, but nothing else
+                    if out == Some(e) {
+                        h.st = RS::S0 { fresh: false };
+                    }
+                    Some(out.filter(|o| *o == e))
                 } else {
                     Some(None)
                 }
             }
             RS::SL { t0, .. } => {
-                if now.saturating_sub(t0) >= timeout {
-                    info.rec_late = true;
+                if maybe_late(t0, now, timeout) {
+                    info.rec_late = surely_late(t0, now, timeout);
                     h.st = RS::Idle;
-                    Some(None)
-                } else {
-                    Some(None)
                 }
+                Some(None)
             }
             _ => Some(None),
         };
@@ -466,19 +496,31 @@ impl PollObs {
         }
         // ---- C13
         let pend = h.pending_msb();
-        let late = matches!(pend, Some(p) if now.saturating_sub(p.at) >= timeout);
+        let late_sure = matches!(pend, Some(p) if surely_late(p.at, now, timeout));
+        let late_maybe = matches!(pend, Some(p) if maybe_late(p.at, now, timeout));
         if let Some(p) = pend {
             info.what = 0;
-            let el = now.saturating_sub(p.at);
+            let el = now.a.saturating_sub(p.at.b);
             info.when = if el < timeout { 0 } else if el == timeout { 1 } else { 2 };
+            info.straddle = late_maybe && !late_sure;
         }
         match out {
             Some(r) => {
-                if !late {
+                if !late_maybe {
                     s.check(R::C13_T1, false, || match pend {
-                        Some(p) => format!("poll({}) returned {:?} only {:?} after the MSB was fed (timeout {:?})", c, r, now.saturating_sub(p.at), timeout),
+                        Some(p) => format!("poll({}) returned {:?} only {:?} after the MSB was fed (timeout {:?})", c, r, now.b.saturating_sub(p.at.a), timeout),
                         None => format!("poll({}) returned {:?} although no MSB is pending", c, r),
                     });
+                    // C14 view of an unjustified poll report
+                    match (h.nmsb, h.nlsb) {
+                        (Some(_), Some(_)) => {
+                            let again = matches!(h.last6, Some(p) if p.val as u16 == r.val && (p.rep7 || p.in14));
+                            if again {
+                                s.check(R::C14_I4, false, || format!("poll({}) reported CC6 value {} again", c, r.val));
+                            }
+                        }
+                        _ => s.check(R::C14_I2b, false, || format!("poll({}) reported {:?} while a number half is missing", c, r)),
+                    }
                 } else {
                     let p = h.last6.as_mut().unwrap();
                     let num_ok = matches!((h.nmsb, h.nlsb), (Some(ms), Some(ls)) if r.num == (ms as u16) * 128 + ls as u16) && r.reg == h.reg;
@@ -491,42 +533,31 @@ impl PollObs {
                     s.check(R::C14_I3, r.dt == 0 && !r.b14 && r.val == pv as u16, || format!("poll({}): {:?} is not the pending CC6 value {}", c, r, pv));
                     p.rep7 = true;
                 }
-                if !late {
-                    // C14 view of an unjustified poll report
-                    match (h.nmsb, h.nlsb) {
-                        (Some(_), Some(_)) => {
-                            let again = matches!(h.last6, Some(p) if p.val as u16 == r.val && (p.rep7 || p.in14));
-                            if again {
-                                s.check(R::C14_I4, false, || format!("poll({}) reported CC6 value {} again", c, r.val));
-                            }
-                        }
-                        _ => s.check(R::C14_I2b, false, || format!("poll({}) reported {:?} while a number half is missing", c, r)),
-                    }
-                }
             }
             None => {
-                if late {
+                if late_sure {
                     s.check(R::C14_I5, false, || format!("poll({}) at/after the timeout did not report the pending CC6 value {}", c, pend.unwrap().val));
                 }
             }
         }
-        if late {
-            s.check(R::C13_T2, out.is_some(), || format!("poll({}) returned nothing although an MSB (value {}) has been pending for {:?} >= timeout {:?}", c, pend.unwrap().val, now.saturating_sub(pend.unwrap().at), timeout));
+        if late_sure {
+            s.check(R::C13_T2, out.is_some(), || format!("poll({}) returned nothing although an MSB (value {}) has been pending for {:?} >= timeout {:?}", c, pend.unwrap().val, now.a.saturating_sub(pend.unwrap().at.b), timeout));
         }
         let q = h.unpaired_lsb();
         if pend.is_none() {
             if let Some(q) = q {
                 info.what = 1;
-                let el = now.saturating_sub(q.at);
+                let el = now.a.saturating_sub(q.at.b);
                 info.when = if el < timeout { 0 } else if el == timeout { 1 } else { 2 };
+                info.straddle = maybe_late(q.at, now, timeout) && !surely_late(q.at, now, timeout);
             }
         }
-        let q_early = matches!(q, Some(q) if now.saturating_sub(q.at) < timeout);
-        if (pend.is_some() && !late) || (pend.is_none() && q_early) {
+        let q_early = matches!(q, Some(q) if !maybe_late(q.at, now, timeout));
+        if (pend.is_some() && !late_maybe) || (pend.is_none() && q_early) {
             s.check(R::C13_T4, out.is_none() && unchanged, || format!("early poll({}) had an effect: returned {:?}, state unchanged: {}", c, out, unchanged));
         }
         if let Some(q) = h.last38.as_mut() {
-            if !q.used14 && now.saturating_sub(q.at) >= timeout {
+            if !q.used14 && surely_late(q.at, now, timeout) {
                 q.dropped = true;
             }
         }
